@@ -77,7 +77,10 @@ class _AccStub:
                     if bool(SymBool(z3.Bool("acc_pick#%d" % c._nfresh))):
                         pick = cand
                         break
-                vals.append(pick)
+                # exact rational constant AS A TERM: arithmetic on catalogue proposals must not be folded in floating point
+                # (a 1e-17 rounding of the proposal's objective is a sliver the solver can steer alpha into)
+                from fractions import Fraction
+                vals.append(SymReal(z3.RealVal(str(Fraction(float(pick)).limit_denominator(1000)))))
             w_acc = shim.sarr(vals)
         else:
             w_acc = shim.sarr([SymReal(c.fresh("wacc")) for _ in range(k)])
